@@ -8,6 +8,8 @@ of the `cosmossdk.io/math` / `sdk.Coin` operations the translated functions use:
 * `Int.Quo` is T-division and panics on a zero divisor; `Int.Mod` is `big.Int.Mod` (Euclidean);
 * `QuoRemInt` (x/exchange/helpers.go, written with `math/big` directly) is `big.Int.QuoRem`:
   T-division and its remainder, panic on a zero divisor;
+* `*big.Int` values (`x.BigInt()`, `new(big.Int).Mul/Add/Sub/QuoRem`, `big.NewInt`) are unbounded
+  integers without any overflow check; `BitLen` is the bit length of the absolute value;
 * `sdk.NewCoin` panics for a negative amount (denominations are assumed valid);
 * a panic and a returned error are both `Except.error` (the class is informative only).
 
@@ -55,6 +57,12 @@ def mod (a b : Int) : Except AErr Int :=
   if b = 0 then .error .divzero else .ok (a.emod b)
 def quoRemInt (a b : Int) : Except AErr (Int × Int) :=
   if b = 0 then .error .divzero else .ok (a.tdiv b, a.tmod b)
+/-- `big.Int.BitLen`: length of the absolute value in bits (0 for 0). -/
+def bitLen (a : Int) : Int := if a = 0 then 0 else (Nat.log2 a.natAbs + 1 : Nat)
+/-- `sdkmath.NewIntFromBigInt`: a nil `Int` above 256 bits (every later use panics) — modelled as
+failing at the conversion. -/
+def newIntFromBigInt (a : Int) : Except AErr Int :=
+  if fits256 a then .ok a else .error .overflow
 def newCoin (d : String) (a : Int) : Except AErr GoCoin :=
   if a < 0 then .error .invalid else .ok ⟨d, a⟩
 
